@@ -32,6 +32,7 @@ DEFAULTS = dict(
     p_head_perm=0.0,     # named head arguments listed in a drawn order (per rule / fact)
     p_if_composite=0.0,  # if-then-else whose branches are lists / records
     allow_mba_head_perm=True,   # False restores the exclusion of the (fixed, 288b00f) mba finding
+    p_in_lit_left=0.0,   # `literal in [..]` with repeated / variable elements
     p_spread_edb=0.0,    # fact table with pairwise different values in one Num column
     avoid_d11=True,      # known finding C01 D11 (see gen.cmp); False re-derives it
     p_recif=0.0,         # a variable bound to a record-valued if-then-else, read >= 2 times
@@ -422,6 +423,87 @@ class Gen(object):
     # ------------------------------------------------------------------ injectibles
     def make_inj(self, name):
         rng = self.rng
+        if self.o['p_inj_combine'] and self.chance(self.o['p_inj_combine']):
+            return self.make_inj_combine(name)
+        self._aggx_off += 1
+        try:
+            return self._make_inj_plain(name)
+        finally:
+            self._aggx_off -= 1
+
+    def make_inj_combine(self, name):
+        """Injectible whose body contains combines / negations: a function
+        `F(x) = Sum{y :- E(x, y)}` or a relation `J(x, lo, hi) :- lo = Min{y :- E(x, y)},
+        hi = Max{y :- E(y, x)}, ~E(x, x)` (sibling scopes re-using local names)."""
+        rng = self.rng
+        o = self.o
+        self.used = set()
+        self.roots = set()
+        self._sib_locals = set()
+        self._agg_results = []
+        saved = {k: o[k] for k in ('agg_ops', 'p_fcall', 'p_sibling_reuse',
+                                   'p_sibling_reuse_neg', 'p_name_clash')}
+        o['agg_ops'] = tuple(x for x in o['agg_ops']
+                             if x in ('Sum', 'Min', 'Max', 'Count', '+')) or ('Sum',)
+        o['p_fcall'] = 0.0
+        o['p_name_clash'] = 0.0
+        o['p_sibling_reuse'] = max(o['p_sibling_reuse'], 0.7)
+        o['p_sibling_reuse_neg'] = max(o['p_sibling_reuse_neg'], 0.7)
+        self._aggx_off += 1
+        try:
+            k_in = rng.randint(1, 2)
+            in_names = rng.sample(VARNAMES, k_in)
+            in_types = [rng.choice(ATOMS) for _ in range(k_in)]
+            env = dict(zip(in_names, in_types))
+            self.used |= set(in_names)
+            self.roots |= set(in_names)
+            if rng.random() < 0.5:
+                lit = self.combine(env, 1)
+                t = env.pop(lit[1])
+                body = ('aggx', lit[2], lit[3], lit[4])
+                if t == 'N' and rng.random() < 0.3:
+                    penv = dict(zip(in_names, in_types))
+                    body = ('bin', rng.choice(['+', '-']), body,
+                            self.expr('N', penv, 1, False))
+                self.inj[name] = ('fun', tuple(in_names), body)
+                self.inj_sig[name] = ('fun', in_types, t)
+                self.labels.add('inj_fun_with_combine')
+            else:
+                kinds = rng.choice((('agg',), ('agg', 'agg'), ('agg', 'agg'), ('neg', 'neg'),
+                                    ('agg', 'neg'), ('neg',), ('agg', 'neg', 'agg')))
+                body, outs = [], []
+                for kind in kinds:
+                    if kind == 'agg':
+                        lit = self.combine(env, 1)
+                        body.append(lit)
+                        outs.append((lit[1], env[lit[1]]))
+                    else:
+                        body.append(self.negation(env, 1))
+                if not outs and rng.random() < 0.5:
+                    t = rng.choice(ATOMS)
+                    e = self.expr(t, dict(zip(in_names, in_types)), 1, False)
+                    v = self.newvar(env, t)
+                    body.append(('assign', v, e))
+                    outs.append((v, t))
+                if rng.random() < 0.3:
+                    body.append(self.cmp(env, 1, allow_fcall=False))
+                rng.shuffle(body)
+                params = list(in_names) + [v for v, t in outs]
+                self.inj[name] = ('rel', tuple(params), tuple(body))
+                self.inj_sig[name] = ('rel', list(in_types) + [t for v, t in outs], k_in)
+                self.labels.add('inj_rel_with_combine')
+                if len(kinds) > 1:
+                    self.labels.add('inj_rel_sibling_scopes')
+        finally:
+            self._aggx_off -= 1
+            o.update(saved)
+        self.inj_hot = getattr(self, 'inj_hot', []) + [name]
+        for v in sorted(self.used):
+            if v not in self.hot_names:
+                self.hot_names.append(v)
+
+    def _make_inj_plain(self, name):
+        rng = self.rng
         if self.chance(self.o['p_rel_inj']):
             # relational: inputs..., outputs computed from inputs, optional filter
             k_in = rng.randint(1, 2)
@@ -463,6 +545,11 @@ class Gen(object):
     # ------------------------------------------------------------------ literals
     def call(self, env, name=None, fresh_only=False):
         rng = self.rng
+        if name is None and self.o['p_call_idb'] and self.chance(self.o['p_call_idb']):
+            idbs = [n for n in self.concrete if n.startswith('I')]
+            if idbs:
+                name = rng.choice(idbs[-3:])
+                self.labels.add('call_prefers_idb')
         name = name or rng.choice(self.concrete)
         s = self.sig[name]
         fields = self.pick_fields(s, min_one=True)
@@ -502,12 +589,12 @@ class Gen(object):
             self.labels.add('named_args')
         return ('call', name, tuple(args), tuple(opts))
 
-    def inj_call(self, env):
+    def inj_call(self, env, name=None):
         rng = self.rng
         rels = [n for n in self.inj if self.inj_sig[n][0] == 'rel']
         if not rels:
             return None
-        n = rng.choice(rels)
+        n = name or rng.choice(rels)
         _, ptypes, k_in = self.inj_sig[n]
         args = []
         for i, pt in enumerate(ptypes):
@@ -542,6 +629,13 @@ class Gen(object):
                 lst = ('list', tuple(self.expr(t, dict(env), 1)
                                      for _ in range(rng.randint(1, 3))))
             self.labels.add('in')
+            if self.o['p_in_lit_left'] and self.chance(self.o['p_in_lit_left']):
+                # a literal on the left: `"a" in [x, "a", y]` holds once per equal element
+                lit = self.lit_of(t)
+                elems = [lit if rng.random() < 0.5 else self.expr(t, dict(env), 0)
+                         for _ in range(rng.randint(2, 3))]
+                self.labels.add('in_literal_left')
+                return ('in', lit, ('list', tuple(elems)))
             if rng.random() < 0.65:
                 v = self.newvar(env, t)
                 if lst[0] == 'var' or not (expr_vars(lst) - self.roots):
@@ -595,7 +689,14 @@ class Gen(object):
 
     def negation(self, env, depth):
         inner = dict(env)
+        tok = None
+        if self.o['p_sibling_reuse_neg']:
+            tok = self._open_scope(self.o['p_sibling_reuse_neg'])
+            if tok[0] is not None:
+                self.labels.add('sibling_name_reuse_negation')
         b = self.sub_body(inner, depth - 1)
+        if tok is not None:
+            self._close_scope(tok, inner)
         self.labels.add('negation')
         if len(b) > 1:
             self.labels.add('negation_of_conjunction')
@@ -624,10 +725,14 @@ class Gen(object):
         rng = self.rng
         saved_or = self.o['p_or']
         lits = []
-        for _ in range(rng.randint(1, 2)):
-            lits.append(self.call(inner_env))
-        for _ in range(rng.randint(0, 1)):
-            lits.append(self.filter_literal(inner_env, depth))
+        self._nest += 1
+        try:
+            for _ in range(rng.randint(1, 2)):
+                lits.append(self.call(inner_env))
+            for _ in range(rng.randint(0, 1)):
+                lits.append(self.filter_literal(inner_env, depth))
+        finally:
+            self._nest -= 1
         self.o['p_or'] = saved_or
         return lits
 
@@ -701,7 +806,36 @@ class Gen(object):
             for _ in range(rng.randint(2, 3)):
                 lits.append(self.combine(env, depth))
             self.labels.add('multi_combine_rule')
+        if self.o['p_agg_nobody'] and env and self.chance(self.o['p_agg_nobody']):
+            a = self.agg_nobody(env)
+            if a:
+                lits.append(a)
+        if self.o['p_inj_extra'] and self.inj and self.chance(self.o['p_inj_extra']):
+            lits.extend(self.extra_inj_calls(env))
         return lits
+
+    def extra_inj_calls(self, env):
+        """1-3 more calls of injectibles (preferably those containing combines): the same
+        one twice, the output of one feeding the next, nested function calls."""
+        rng = self.rng
+        hot = [n for n in getattr(self, 'inj_hot', []) if n in self.inj]
+        out = []
+        n = None
+        for i in range(rng.choice((1, 2, 2, 3))):
+            if n is None or rng.random() < 0.4:
+                n = rng.choice(hot) if hot and rng.random() < 0.75 else \
+                    rng.choice(sorted(self.inj))
+            elif i:
+                self.labels.add('inj_called_twice')
+            if self.inj_sig[n][0] == 'rel':
+                lit = self.inj_call(env, name=n)
+            else:
+                fc = self.inj_fcall(n, dict(env), 2)
+                v = self.newvar(env, self.inj_sig[n][2])
+                lit = ('assign', v, fc, '==')
+            out.append(lit)
+        self.labels.add('inj_extra_calls')
+        return out
 
     def disjunction(self, env):
         """A `( A | B )` group whose branches bind the same new variable."""
@@ -838,6 +972,11 @@ class Gen(object):
                 head = self.maybe_permute_head(head, opts)
             rules.append(mk_rule(name, head, body, value=val, distinct=distinct,
                                  opts=opts))
+            if o['p_name_clash'] and nrules == 1 and not distinct:
+                # this predicate may get injected: its combine-local names are hazards
+                for v in sorted(self._sib_locals):
+                    if v not in self.hot_names:
+                        self.hot_names.append(v)
         if distinct:
             self.labels.add('distinct')
             if aggs:
